@@ -1,4 +1,5 @@
 import XcmModel.Btcp
+import XcmModel.Lemmas.Api
 /-!
 # C02 — byte-stream transports deliver exactly the accepted bytes, in order  (btcp)
 
@@ -189,6 +190,25 @@ example :
       .send [9, 9] [] (.err EAGAIN), .send [3, 4, 5] [] (.ok 99)]
     A.accepted = [1, 2, 3, 4, 5] ∧ A.s.tx = [1, 2, 3, 4, 5] ∧
     A.results = [.n 2 [], .err EAGAIN, .err EAGAIN, .n 3 []] := by
+  decide
+
+
+/-! ## blocking mode: `bytestream_bsend` of xcm.c -/
+
+/-- **what a blocking xcm_send on a byte stream reports is what was handed down**: for every length,
+every behaviour of the transport (short counts, EAGAIN, errors) and of poll (readiness, EINTR), a
+returned count equals the number of bytes the transport accepted during the call. -/
+theorem C02_bsend_accounting (len : Nat) (script : List Api.Ans) (n : Nat)
+    (h : (Api.send { blocking := true, bytestream := true } len script).1 = .rc n) :
+    Api.accBytes (Api.send { blocking := true, bytestream := true } len script).2 = n := by
+  simp only [Api.send, if_true] at *
+  have hb := Api.bsend_acc (Api.fuelOf script) len 0 script [] rfl
+  have hf := Api.finishAfter_spec (Api.bytestreamBsend (Api.fuelOf script) len 0 script [])
+  rw [hf.1]
+  exact hb.1 n (hf.2.2.1 n h)
+
+/-- non-vacuity: 7000 bytes in three short rounds with an EAGAIN and a wait in between -/
+example : (Api.send { blocking := true, bytestream := true } 7000 [.ok 3000, .err 11, .ok 1, .ok 3000, .ok 3000]).1 = .rc 7000 := by
   decide
 
 end XcmModel.C02
